@@ -705,6 +705,69 @@ def rule_r15(repo, run):
     import_rules(run, R, c06, repo, {"C06.R10"}, only=lambda c: c.startswith("wrapc.Wrapc.compute_idtor"))
 
 
+def rule_r16(repo, run):
+    R = run.rule("C02.R16", "the C wrapper returns a C++ reference as a pointer (gen_arg_as_c writes `T *` for `T &`), so what is "
+                            "put in front of the returned variable (`&`, `*`, nothing) is decided by is_indirect(), not by "
+                            "is_pointer() alone; a conversion that yields a const pointer (std::string::c_str()) initialises a "
+                            "result that is declared from the C++ declaration only through a const_cast when that declaration "
+                            "is not const")
+    sm, wc, tm = repo.module("statements"), repo.module("wrapc"), repo.module("typemap")
+    fn = sm.func("compute_return_prefix")
+    n = 0
+    for i in ast.walk(fn):
+        if not isinstance(i, ast.If):
+            continue
+        t = ast.unparse(i.test)
+        if "is_pointer()" in t and "is_reference()" in t:
+            n += 1
+            run.ok(R, "statements.compute_return_prefix:%s" % t)
+        elif "is_pointer()" in t and "is_reference()" not in t:
+            # an arm that is only reached for non-references may ask is_pointer() alone
+            outer = [ast.unparse(tt) for tt, pol in pyflow.dominating_tests(i, stop=fn) if not pol]
+            guards = [ast.unparse(tt) for tt, pol in pyflow.early_exit_guards(fn, i)]
+            excluded = any("is_reference()" in x for x in outer + guards)
+            n += 1
+            arm = " ".join(ast.unparse(tt) for tt, pol in pyflow.dominating_tests(i, stop=fn) if pol)
+            run.check(R, "statements.compute_return_prefix:%s[%s]" % (t, arm), excluded,
+                      "`%s` decides what is written before the returned variable; a reference is not a pointer for this test "
+                      "but is returned as one: `const Pt &f()` ends with `return *SHC_rv;` in a function of type `const X_pt *`"
+                      % t, sm.loc(i))
+        elif "is_indirect()" in t:
+            n += 1
+            arm = " ".join(ast.unparse(tt) for tt, pol in pyflow.dominating_tests(i, stop=fn) if pol)
+            run.ok(R, "statements.compute_return_prefix:%s[%s]" % (t, arm))
+    run.floor(R, "indirection tests of compute_return_prefix", n, 2)
+    # const conversions
+    wfn = wc.func("Wrapc.wrap_function")
+    sites = [a for a in ast.walk(wfn) if isinstance(a, ast.Assign) and ast.unparse(a.targets[0]).endswith(".c_val")
+             and "cxx_to_c" in ast.unparse(a.value)]
+    if not sites:
+        raise AnalysisError("C02.R16: the conversion `c_val = wformat(<typemap>.cxx_to_c, ...)` of Wrapc.wrap_function was not found")
+    const_conv = []
+    for key, val in pyflow.table_fields(tm.tree):
+        if key == "cxx_to_c" and pyflow.const_str(val) and re.search(r"c_str\(\)|\.data\(\)", pyflow.const_str(val)):
+            const_conv.append(pyflow.const_str(val))
+    for a in sites:
+        blk = a
+        for p_ in parent_chain(a):
+            if isinstance(p_, (ast.If, ast.For, ast.FunctionDef)):
+                blk = p_
+                break
+        decl_from_cxx = any(isinstance(x, ast.Assign) and ast.unparse(x.targets[0]).endswith(".c_rv_decl") and "gen_arg_as_c" in ast.unparse(x.value)
+                            for x in ast.walk(blk))
+        casts = [x for x in ast.walk(blk) if isinstance(x, ast.Constant) and isinstance(x.value, str) and "const_cast<" in x.value]
+        guarded = False
+        for c in casts:
+            atoms = [(ast.unparse(t), pol) for t, pol in pyflow.dominating_tests(c, stop=wfn)]
+            if any(".const" in t for t, pol in atoms):
+                guarded = True
+        run.check(R, "wrapc.Wrapc.wrap_function:c_val<-cxx_to_c:const", (not decl_from_cxx) or (not const_conv) or guarded,
+                  "the result variable is declared from the C++ declaration (`char * SHC_rv` for `std::string &f()`) and initialised "
+                  "with the typemap's cxx_to_c (`%s`, a const pointer) without a const_cast for the non-const case: the wrapper "
+                  "does not compile" % (const_conv[0] if const_conv else ""), wc.loc(a))
+
+
+
 def run(repo, run, tier):
     tables.check_model_assumptions(repo)
     table = tables.StatementTable(repo, "statements", "fc_statements")
@@ -723,4 +786,5 @@ def run(repo, run, tier):
     rule_r13(repo, run, types)
     rule_r14(repo, run, table)
     rule_r15(repo, run)
+    rule_r16(repo, run)
     rule_x(repo, run)
